@@ -271,11 +271,42 @@ class GrammarGen:
             return self.ident() + "." + self.ident()
         if c < 0.88:
             return "raise " + self.ident() + ".Create(" + self.expr(2) + ")"
-        if c < 0.92:
+        if c < 0.91:
             return "Exit"
-        if c < 0.96:
+        if c < 0.94:
             return "inherited"
+        if c < 0.97:
+            return self.anon_routine_stmt()
         return "var " + self.ident() + " := " + self.expr()
+
+    def anon_routine_stmt(self):
+        """a statement holding an anonymous routine: with parameters, a result type, local declaration sections
+        (var / const / type / label), a nested routine, an empty or non-empty body; as an argument or assigned"""
+        r = self.rng
+        kind = r.choice(["procedure", "function"])
+        params = r.choice(["", "", "(A: Integer)", "(const S: string; var N: Integer)", "()"])
+        head = kind + params + (": " + r.choice(["Integer", "string", "TFoo"]) if kind == "function" else "")
+        decls = ""
+        for _ in range(r.choice([0, 0, 1, 1, 2])):
+            d = r.random()
+            if d < 0.4:
+                decls += " var " + self.ident() + ": " + r.choice(["Integer", "string"]) + ";" + r.choice(["", " " + self.ident() + ": Byte;"])
+            elif d < 0.6:
+                decls += " const " + self.ident() + " = " + str(r.randrange(100)) + ";"
+            elif d < 0.7:
+                decls += " type T" + self.ident() + " = Integer;"
+            elif d < 0.8:
+                decls += " label " + self.ident() + ";"
+            else:
+                decls += " procedure Inner; begin " + self.ident() + " := 1; end;"
+        body = " begin " + "; ".join(self.ident() + " := " + self.expr(2) for _ in range(r.randrange(0, 3))) + " end"
+        routine = head + decls + body
+        c = r.random()
+        if c < 0.4:
+            return self.ident() + " := " + routine
+        if c < 0.8:
+            return self.ident() + "." + self.ident() + "(" + r.choice(["", self.expr(2) + ", "]) + routine + r.choice(["", ", " + self.expr(2)]) + ")"
+        return self.ident() + "(" + routine + ")"
 
     def stmt(self, p, depth, nest):
         """emits one statement (without the trailing `;`) starting at the current position"""
